@@ -95,6 +95,20 @@ Fixpoint emptycode (q : query) : bool :=
 
 (* compileArray folds [q] to a constant exactly when the code of q is the code of a left-nested
    comma of single opconst instructions (fork/jump targets included, see compiler.go) *)
+(* the (key, value) pairs of an object all of whose keys are constant and whose values are single constants *)
+Section ObjConsts.
+Variable A : query -> option (list jv).
+Fixpoint obj_consts (es : list ((list N + query) * query)) : option (list (jv * jv)) :=
+  match es with
+  | [] => Some []
+  | (inl k, qv) :: r =>
+      match A qv, obj_consts r with
+      | Some [c], Some l => Some ((VStr k, c) :: l)
+      | _, _ => None
+      end
+  | _ => None
+  end.
+End ObjConsts.
 Fixpoint acl (q : query) : option (list jv) :=
   match q with
   | QConst c => Some [c]
@@ -108,6 +122,16 @@ Fixpoint acl (q : query) : option (list jv) :=
       match acl a, acl b with
       | Some cs, Some [c] => Some (cs ++ [c])
       | _, _ => None
+      end
+  | QObject es =>
+      (* an object that compileObject folds to one opconst (every value a single opconst, every key a constant) *)
+      match es with
+      | [] => Some [VObj []]
+      | _ =>
+          match obj_consts acl es with
+          | Some kcs => match mk_obj kcs with inl w => Some [w] | inr _ => None end
+          | None => None
+          end
       end
   | _ => None
   end.
@@ -141,6 +165,148 @@ Fixpoint comp_args (l : list query) (p sn : nat) : option (list instr * nat * na
       | None => None end
   end.
 End Args.
+
+(* compilePattern: the value on top of the stack is consumed.  $x: a fresh variable, store.  An array / object
+   pattern: a fresh anonymous variable v, store v, then per element  load v; indexarray i; <pattern>  resp. per entry
+   load v; index k; [dup; store $x;] <pattern>.  Returns the code, the variables bound (innermost = last first) and
+   the new variablecnt.  (pushVariable would reuse the slot of a name bound earlier in the same `as`: patterns that
+   repeat a name are outside the fragment, see pat_ok / names_nodup.) *)
+Fixpoint pcomp (p : pattern) (cur nv : nat) : list instr * list (vname * var) * nat :=
+  match p with
+  | PVar x => ([Istore (cur, nv)], [(x, (cur, nv))], S nv)
+  | PArr l => let '(c, b, n) := parr_comp l 0 (cur, nv) cur (S nv) in (Istore (cur, nv) :: c, b, n)
+  | PObj l => let '(c, b, n) := pobj_comp l (cur, nv) cur (S nv) in (Istore (cur, nv) :: c, b, n)
+  end
+with parr_comp (l : parr) (i : nat) (v : var) (cur nv : nat) : list instr * list (vname * var) * nat :=
+  match l with
+  | ANil => ([], [], nv)
+  | ACons p r =>
+      let '(c1, b1, n1) := pcomp p cur nv in
+      let '(c2, b2, n2) := parr_comp r (S i) v cur n1 in
+      (Iload v :: Iindexarray i :: c1 ++ c2, b2 ++ b1, n2)
+  end
+with pobj_comp (l : pobj) (v : var) (cur nv : nat) : list instr * list (vname * var) * nat :=
+  match l with
+  | ONil => ([], [], nv)
+  | OKey k p r =>
+      let '(c1, b1, n1) := pcomp p cur nv in
+      let '(c2, b2, n2) := pobj_comp r v cur n1 in
+      (Iload v :: Iindex (VStr k) :: c1 ++ c2, b2 ++ b1, n2)
+  | OKeyVar k x p r =>
+      let '(c1, b1, n1) := pcomp p cur (S nv) in
+      let '(c2, b2, n2) := pobj_comp r v cur n1 in
+      (Iload v :: Iindex (VStr k) :: Idup :: Istore (cur, nv) :: c1 ++ c2, b2 ++ b1 ++ [(x, (cur, nv))], n2)
+  end.
+(* "invalid pattern": an array / object pattern has at least one element *)
+Fixpoint pat_ok (p : pattern) : bool :=
+  match p with
+  | PVar _ => true
+  | PArr l => match l with ANil => false | _ => parr_ok l end
+  | PObj l => match l with ONil => false | _ => pobj_ok l end
+  end
+with parr_ok (l : parr) : bool := match l with ANil => true | ACons p r => pat_ok p && parr_ok r end
+with pobj_ok (l : pobj) : bool :=
+  match l with ONil => true | OKey _ p r => pat_ok p && pobj_ok r | OKeyVar _ _ p r => pat_ok p && pobj_ok r end.
+Fixpoint names_nodup (l : list (vname * var)) : bool :=
+  match l with
+  | [] => true
+  | (x, _) :: r => negb (existsb (fun e => N.eqb x (fst e)) r) && names_nodup r
+  end.
+Fixpoint pat_nvars (p : pattern) : nat :=
+  match p with
+  | PVar _ => 1
+  | PArr l => S (parr_nvars l)
+  | PObj l => S (pobj_nvars l)
+  end
+with parr_nvars (l : parr) : nat := match l with ANil => 0 | ACons p r => pat_nvars p + parr_nvars r end
+with pobj_nvars (l : pobj) : nat :=
+  match l with ONil => 0 | OKey _ p r => pat_nvars p + pobj_nvars r | OKeyVar _ _ p r => S (pat_nvars p + pobj_nvars r) end.
+Definition is_pvar (p : pattern) : bool := match p with PVar _ => true | _ => false end.
+(* the variables of a pattern become visible, the last one innermost *)
+Fixpoint add_vars (ce : cenv) (bs : list (vname * var)) : cenv :=
+  match bs with
+  | [] => ce
+  | (x, y) :: r => add_var (add_vars ce r) x y
+  end.
+
+(* compileObject: the entries in order, all in the current scope; an entry is  push k | load v; <key query>  followed
+   by  load v; <value query>  (compileObjectKeyVal).  C compiles a sub-query at a pc with a variable and a scope count.
+   The result keeps the code of each entry apart (the constant-folding test looks at them) *)
+Section Ents.
+Variable C : query -> nat -> nat -> nat -> option (list instr * nat * nat).
+Variable v : var.
+Fixpoint comp_ents (es : list ((list N + query) * query)) (p n s : nat) : option (list (list instr) * nat * nat) :=
+  match es with
+  | [] => Some ([], n, s)
+  | (k, qv) :: r =>
+      match (match k with
+             | inl str => Some ([Ipush (VStr str)], n, s)
+             | inr kq => match C kq (S p) n s with
+                         | Some (ck, n', s') => Some (Iload v :: ck, n', s')
+                         | None => None end
+             end) with
+      | Some (ck, n1, s1) =>
+          match C qv (p + length ck + 1) n1 s1 with
+          | Some (cv, n2, s2) =>
+              match comp_ents r (p + length ck + 1 + length cv) n2 s2 with
+              | Some (cr, n3, s3) => Some ((ck ++ Iload v :: cv) :: cr, n3, s3)
+              | None => None end
+          | None => None end
+      | None => None end
+  end.
+End Ents.
+(* "optimize constant objects": every entry is  push k; load v; const c.  compiler.go tests the opcodes at the positions
+   pc+3i, pc+3i+1, pc+3i+2 of the flat list after checking its length (3 per entry); the model tests entry by entry
+   (the same unless an entry whose code is not 3 instructions long re-aligns with that pattern; the executable
+   comparison of the instruction lists covers near-fold shapes) *)
+Fixpoint ents_const (cs : list (list instr)) : option (list (jv * jv)) :=
+  match cs with
+  | [] => Some []
+  | [Ipush (VStr k); Iload _; Iconst c] :: r =>
+      match ents_const r with Some l => Some ((VStr k, c) :: l) | None => None end
+  | _ => None
+  end.
+
+(* the code of an argument of an internal function (compileCallInternal / compileFuncDef) *)
+Definition arg_code (v : var) (p sn : nat) (cb : list instr) (nvc : nat) : list instr :=
+  match cb with
+  | [] => [Iload v]
+  | [x] => if Nat.eqb nvc 0
+           then match x with Iconst c => [Ipush c] | _ => [Iload v; x] end
+           else Ijump (p + 2 + 1 + 1) :: Iscope sn nvc 0 :: [x] ++ [Iret; Iload v; Ipushpc (S p); Icallpc]
+  | _ => Ijump (p + 2 + length cb + 1) :: Iscope sn nvc 0 :: cb ++ [Iret; Iload v; Ipushpc (S p); Icallpc]
+  end.
+
+
+(* Index.toIndexKey: an index / a slice bound that is a literal (or absent) makes the key a constant *)
+(* Query.toIndexKey looks at the Term of the query only: function definitions in front of a literal are dropped
+   (`.[def f: 1; 0]` is `.[0]`); such index queries are outside the fragment as well *)
+Fixpoint lit_under_defs (q : query) : option jv :=
+  match q with QConst c => Some c | QDef _ _ _ r => lit_under_defs r | _ => None end.
+Definition keyc_index (q : query) : bool := match lit_under_defs q with Some (VNum _) | Some (VStr _) => true | _ => false end.
+Definition keyc_bound (q : query) : bool := match q with QConst VNull => true | _ => keyc_index q end.
+(* compileCallInternal with indexing = 1: the argument(s) after the first are wrapped in expbegin .. expend, and the
+   expbegin is dropped (no expend) when they are one instruction *)
+Definition wrap_exp (c : list instr) : list instr := match c with [_] => c | _ => Iexpbegin :: c ++ [Iexpend] end.
+
+(* compileObject.  {}: one opconst.  Otherwise  store v; the entries; opobject n  -- or, when every entry is
+   push k; load v; const c,  one opconst *)
+Definition comp_object (C : query -> nat -> nat -> nat -> option (list instr * nat * nat)) (v : var)
+  (es : list ((list N + query) * query)) (pc nv sn : nat) : option (list instr * nat * nat) :=
+  match es with
+  | [] => Some ([Iconst (VObj [])], nv, sn)
+  | _ =>
+      match comp_ents C v es (S pc) (S nv) sn with
+      | Some (cs, n1, s1) =>
+          match ents_const cs with
+          | Some kcs => match mk_obj kcs with
+                        | inl w => Some ([Iconst w], n1, s1)
+                        | inr _ => None           (* unreachable: the keys are strings *)
+                        end
+          | None => Some (Istore v :: concat cs ++ [Iobject (length es)], n1, s1)
+          end
+      | None => None end
+  end.
 
 (* ---- optimizeTailRec, as part of the compiler ----
    tl = Some (p, Some cj): the query is in tail position of the parameterless function whose opscope is at p (the
@@ -186,6 +352,17 @@ Fixpoint nvars (q : query) : nat :=
   | QBinop _ _ _ => 1
   | QDef _ _ _ rest => nvars rest
   | QCallF _ args => match args with [] => 0 | _ => 1 end
+  | QBindP s p b => nvars s + pat_nvars p + nvars b
+  | QIndexQ _ _ | QSlice _ _ _ => 1
+  | QObject es =>
+      match es with
+      | [] => 0
+      | _ => S ((fix go (es : list ((list N + query) * query)) : nat :=
+                   match es with
+                   | [] => 0
+                   | (k, qv) :: r => match k with inl _ => 0 | inr kq => nvars kq end + nvars qv + go r
+                   end) es)
+      end
   end.
 
 Section Tco.
@@ -405,6 +582,60 @@ Fixpoint compg (q : query) (ce : cenv) (tp : tailpos) (cur pc nv sn : nat) {stru
           end
       | _ => None
       end
+  | QObject es => comp_object (fun a p n s => compg a ce None cur p n s) (V nv) es pc nv sn
+  | QIndexQ t q =>
+      (* compileCall("_index", [t, q]) = compileCallInternal(.., internal, indexing = 1):
+         store v; expbegin; argument q; expend; argument t; push null; call _index *)
+      let v := V nv in
+      let arg := fun (q : query) (p sn : nat) =>
+        match compg q ce None sn (p + 2) 0 (S sn) with
+        | Some (cb, nvc, s1) => Some (arg_code v p sn cb nvc, s1)
+        | None => None
+        end in
+      if negb (keyc_index q) && Nat.ltb cur sn && ce_lt ce sn then
+      match arg q (S (S pc)) sn with
+      | Some (cq, s1) =>
+          match arg t (S pc + length (wrap_exp cq)) s1 with
+          | Some (ct, s2) => Some (Istore v :: wrap_exp cq ++ ct ++ [Ipush VNull; Icall NIndex2], S nv, s2)
+          | None => None end
+      | None => None end
+      else None
+  | QSlice t a b =>
+      (* compileCall("_slice", [t, b, a]): store v; expbegin; argument a (start); argument b (end); expend; argument t;
+         push null; call _slice *)
+      let v := V nv in
+      let arg := fun (q : query) (p sn : nat) =>
+        match compg q ce None sn (p + 2) 0 (S sn) with
+        | Some (cb, nvc, s1) => Some (arg_code v p sn cb nvc, s1)
+        | None => None
+        end in
+      if negb (keyc_bound a && keyc_bound b) && Nat.ltb cur sn && ce_lt ce sn then
+      match arg a (S (S pc)) sn with
+      | Some (ca, s1) =>
+          match arg b (S (S pc) + length ca) s1 with
+          | Some (cb, s2) =>
+              match arg t (S (S pc) + length ca + length cb + 1) s2 with
+              | Some (ct, s3) =>
+                  Some (Istore v :: Iexpbegin :: ca ++ cb ++ Iexpend :: ct ++ [Ipush VNull; Icall NSlice3], S nv, s3)
+              | None => None end
+          | None => None end
+      | None => None end
+      else None
+  | QBindP src p body =>
+      (* compileBind with one destructuring pattern: dup; expbegin; source; pattern; expend; body.  (The rewrite of
+         expbegin to nop needs a one-instruction pattern after an empty source: a plain $x, which is QBind.)
+         A self tail call in the body is outside the fragment (tl_fb) *)
+      if negb (is_pvar p) && pat_ok p then
+        match compg src ce None cur (pc + 2) nv sn with
+        | Some (cs, n1, s1) =>
+            let '(cp, bs, n2) := pcomp p cur n1 in
+            if names_nodup bs then
+              match compg body (add_vars ce bs) (tl_fb tp) cur (pc + 2 + length cs + length cp + 1) n2 s1 with
+              | Some (cb, n3, s2) => Some (Idup :: Iexpbegin :: cs ++ cp ++ Iexpend :: cb, n3, s2)
+              | None => None end
+            else None
+        | None => None end
+      else None
   end.
 
 (* Compile(): opscope (lazy: final variablecnt), the query, opret *)
